@@ -20,7 +20,7 @@ VERIF = os.path.dirname(HERE)
 sys.path.insert(0, HERE)
 from variants import V  # noqa: E402
 
-SCRATCH = "/tmp/verif-selftest"
+SCRATCH = "/tmp/verif-selftest-%d" % os.getpid()
 
 
 def sh(cmd, **kw):
@@ -40,7 +40,7 @@ def main():
     if r.returncode != 0:
         print(r.stdout)
         sys.exit(2)
-    evdir = "/tmp/verif-selftest-evidence"
+    evdir = "/tmp/verif-selftest-evidence-%d" % os.getpid()
     os.makedirs(evdir, exist_ok=True)
     results = []
     try:
